@@ -2,6 +2,8 @@ mod c01;
 mod c03;
 mod c05;
 mod c07;
+mod c09;
+mod c06;
 mod c10;
 mod c11;
 mod c12;
@@ -9,6 +11,7 @@ mod c15;
 mod dump;
 mod progen;
 mod godump;
+mod goparse;
 mod c17;
 mod c19;
 mod goscope;
@@ -31,6 +34,8 @@ fn main() {
         "c03" => c03::main(&args),
         "c05" => c05::main(&args),
         "c07" => c07::main(&args),
+        "c09" => c09::main(&args),
+        "c06" => c06::main(&args),
         "c10" => c10::main(&args),
         "c12" => c12::main(&args),
         "c15" => c15::main(&args),
